@@ -15,7 +15,10 @@ Transcription of testtools/testsuite.py lines 65-195.
 * `ConcurrentStreamTestSuite` (*stream* flavour): for each sub-suite MAIN registers the worker, calls
   `process_result.startTestRun()` itself - `ExtendedToStreamDecorator.startTestRun` first forwards (the
   `put` of the `startTestRun` item, a scheduling point of main: `MainPc.announce`) and *then* assigns
-  `self.shouldStop = False` - and only then starts the thread (`MainPc.spawn`).  The worker puts its status
+  `self.shouldStop = False` - and only then starts the thread (`MainPc.spawn`).  A worker's test is a
+  TestResult-API test or one that calls `result.status(...)` itself (the per-worker result is
+  `ExtendedToStreamDecorator(TimestampingStreamResult(StreamToQueue))`; `TimestampingStreamResult.status`
+  replaces a missing or `None` `timestamp` by the wall clock, a given one travels unchanged).  The worker puts its status
   events (`inprogress`, final status; for a broken runner `inprogress`, the traceback chunks, `fail`) and
   `stopTestRun` into the queue.  A worker's program counter still lists all the items that travel under its
   route code, the first of them (`startTestRun`) being put by main on its behalf before the thread exists.
@@ -35,9 +38,27 @@ inductive Flavour where
   | suite | stream
 deriving DecidableEq, Repr, Inhabited
 
+/-- how a natively emitted event states its time: keyword omitted, `timestamp=None`, or a given instant -/
+inductive TsMode where
+  | omitted
+  | none
+  | given (n : Nat)
+deriving DecidableEq, Repr, Inhabited
+
+/-- one scripted `result.status(...)` call of a test that speaks the stream protocol itself -/
+structure NEv where
+  id : Nat
+  kind : SKind
+  tags : Option (List Nat)
+  ts : TsMode
+deriving Repr, Inhabited
+
+/-- a test of a sub-suite: a TestResult-API test (`PlaceHolder` with outcome `kind` and `tags`), or - stream flavour
+only, `native = some evs` - a test whose `run(result)` calls `result.status(...)` for each scripted event -/
 structure WTest where
   kind : Kind
   tags : List Nat
+  native : Option (List NEv) := none
 deriving Repr, Inhabited
 
 /-- a sub-suite: runs its placeholder tests in order, then raises from `run()` if `boom` -/
@@ -96,18 +117,37 @@ def statusOf : Kind → Status
   | .success => .success | .error => .fail | .failure => .fail
   | .skip => .skip | .xfail => .xfail | .uxsuccess => .uxsuccess
 
+/-- a natively emitted event as it is delivered: `TimestampingStreamResult` replaces a missing or `None` time stamp
+by the wall clock and leaves a given one alone; everything else travels unchanged -/
+def nativeEvent (wi : Nat) (e : NEv) : SEv :=
+  { w := wi, id := .t e.id, kind := e.kind, tags := e.tags.map normTags,
+    ts := match e.ts with
+      | .given n => some n
+      | _ => none }
+
+/-- the events of one test: `inprogress` (no tags) and the final status with the test's tags current, or the
+scripted events of a native emitter -/
+def testEvents (wi j : Nat) (t : WTest) : List SEv :=
+  match t.native with
+  | some evs => evs.map (nativeEvent wi)
+  | none => [{ w := wi, id := .t j, kind := .st .inprogress },
+             { w := wi, id := .t j, kind := .st (statusOf t.kind), tags := some (normTags t.tags) }]
+
 def testsEvents (wi : Nat) : Nat → List WTest → List SEv
   | _, [] => []
-  | j, t :: ts => ⟨wi, .t j, .st .inprogress⟩ :: ⟨wi, .t j, .st (statusOf t.kind)⟩ :: testsEvents wi (j + 1) ts
+  | j, t :: ts => testEvents wi j t ++ testsEvents wi (j + 1) ts
 
 /-- the traceback of the broken runner: `n` chunks (at least one event), the last with `eof` -/
 def fileEvents (wi : Nat) : Nat → List SEv
-  | 0 => [⟨wi, .broken, .file true⟩]
-  | 1 => [⟨wi, .broken, .file true⟩]
-  | n + 2 => ⟨wi, .broken, .file false⟩ :: fileEvents wi (n + 1)
+  | 0 => [{ w := wi, id := .broken, kind := .file true }]
+  | 1 => [{ w := wi, id := .broken, kind := .file true }]
+  | n + 2 => { w := wi, id := .broken, kind := .file false } :: fileEvents wi (n + 1)
+
+/-- the final event of the errored `broken-runner` test of worker `wi` -/
+def brokenFail (wi : Nat) : SEv := { w := wi, id := .broken, kind := .st .fail, tags := some [] }
 
 def brokenEvents (wi tb : Nat) : List SEv :=
-  ⟨wi, .broken, .st .inprogress⟩ :: (fileEvents wi tb ++ [⟨wi, .broken, .st .fail⟩])
+  { w := wi, id := .broken, kind := .st .inprogress } :: (fileEvents wi tb ++ [brokenFail wi])
 
 /-- the status events worker `wi` emits, in order -/
 def streamEvents (wi tb : Nat) (w : Worker) : List SEv :=
